@@ -827,6 +827,86 @@ impl Prop for Directed {
     }
 }
 
+// ------------------------------------------------------------ modules with dozens of definitions
+
+/// One module of 21-70 definitions with many base relations that run against the order of the names.
+pub struct ManyItems;
+impl Prop for ManyItems {
+    type Case = Case;
+    fn name(&self) -> String {
+        "C12/many-items".into()
+    }
+    fn rule(&self) -> String {
+        "valid programs of one module with 21-70 definitions (packed structs of two u32 members, a few enums, extern types and vftable owners, names T00..Tnn in shuffled declaration order); about half of the structs have one or two bases, chosen by a random rank that is independent of the names, so that many bases sort after the types that embed them. Sorting, grouping and lookup code sees more than a handful of entries. Same worker processes and oracle as C12/directed (every call returns, no panic, both entry points agree). Every case is non-trivial when it parses".into()
+    }
+    fn gen(&self, t: &mut Tape) -> Case {
+        let w = if t.chance(1, 2) { 8 } else { 4 };
+        let n = 21 + t.below(50) as usize;
+        // rank[i]: a type may only embed types of lower rank
+        let mut rank: Vec<usize> = (0..n).collect();
+        for i in (1..n).rev() {
+            let j = t.below(i as u64 + 1) as usize;
+            rank.swap(i, j);
+        }
+        let mut m = Mod {
+            path: vec!["big".into()],
+            ..Default::default()
+        };
+        let kinds: Vec<u64> = (0..n).map(|_| t.below(10)).collect();
+        for i in 0..n {
+            let name = format!("T{i:02}");
+            match kinds[i] {
+                0 => m.items.push(Item::Enum(EnumDef {
+                    sty: 0,
+                    vis: true,
+                    name,
+                    doc: vec![],
+                    base: "u32".into(),
+                    variants: vec![Variant { sty: 0, name: "A".into(), value: Some(Num::d(1)), default: false, doc: vec![] }],
+                    singleton: None,
+                    copyable: false,
+                    cloneable: false,
+                    defaultable: false,
+                })),
+                1 => m.ext_types.push(ExtType { name, size: Num::d(8), align: Num::d(4) }),
+                k => {
+                    let mut fields = vec![];
+                    // bases: structs of lower rank
+                    let lower: Vec<usize> = (0..n).filter(|&j| kinds[j] >= 2 && rank[j] < rank[i]).collect();
+                    let nb = if lower.is_empty() { 0 } else { *t.pick(&[0u64, 0, 1, 1, 2]) };
+                    for b in 0..nb {
+                        let j = lower[t.below(lower.len() as u64) as usize];
+                        let mut f = Field::new(&format!("b{b}"), Ty::Named(format!("T{j:02}")));
+                        f.base = true;
+                        fields.push(f);
+                    }
+                    fields.push(Field::new("x", Ty::n("u32")));
+                    fields.push(Field::new("y", Ty::n("u32")));
+                    // a table of its own only without bases (nothing to restate)
+                    let vft = if k == 2 && nb == 0 {
+                        Some(Vft {
+                            size: None,
+                            funcs: vec![Func { sty: 0, more: vec![], vis: true, name: "vf".into(), doc: vec![], args: vec![Arg::ConstSelf], ret: None, addr: None, index: None, cc: None }],
+                        })
+                    } else {
+                        None
+                    };
+                    m.items.push(Item::Type(TypeDef { vis: true, name, packed: true, vft, fields, ..Default::default() }));
+                }
+            }
+        }
+        // declaration order shuffled too
+        for i in (1..m.items.len()).rev() {
+            let j = t.below(i as u64 + 1) as usize;
+            m.items.swap(i, j);
+        }
+        Case { files: print_prog(&Prog { mods: vec![m] }), w, what: "many-items".into() }
+    }
+    fn judge(&self, c: &Case) -> Outcome {
+        judge_case(c)
+    }
+}
+
 // ------------------------------------------------------------ parse-error positions through add_file
 
 #[derive(Clone, Serialize, Deserialize)]
@@ -1125,6 +1205,7 @@ pub fn bytes_to_case(data: &[u8]) -> Option<Case> {
 pub fn props() -> Vec<Box<dyn DynProp>> {
     vec![
         Box::new(Directed),
+        Box::new(ManyItems),
         Box::new(ParsePosition),
         Box::new(ApiSequences),
         Box::new(FuzzArtifacts {
@@ -1139,6 +1220,7 @@ pub fn run(ctx: &mut Ctx) {
     ctx.run(&ParsePosition, &Params::new(if q { 3_000 } else { 100_000 }, 20, 800));
     ctx.run(&ApiSequences, &Params::new(if q { 3_000 } else { 150_000 }, 60, 1500).shrink(200));
     ctx.run(&Directed, &Params::new(if q { 12_000 } else { 600_000 }, 60, 1500).shrink(200));
+    ctx.run(&ManyItems, &Params::new(if q { 600 } else { 30_000 }, 200, 600).shrink(100));
     if !q && ctx.violations.is_empty() {
         let secs: u64 = std::env::var("PV_FUZZ_SECS").ok().and_then(|s| s.parse().ok()).unwrap_or(900);
         match fuzz_campaign("build_any", secs) {
